@@ -229,12 +229,14 @@ def encGetVal (s : EncSt) : EncGetK → Int
   | .phaseInversionDisabled => s.celtDisableInv
   | .inDtx => encInDtx s
 
-/-- OPUS_RESET_STATE (:3061-3088): clears everything from `stream_channels` on, resets the CELT
-    state from `rng` on (which includes CELT's `energy_mask`) and re-inits SILK; all settings,
-    `voice_ratio`, `silk_mode` (incl. `toMono`, `useDTX`) survive. -/
+/-- OPUS_RESET_STATE: clears everything from `stream_channels` on, resets the CELT state from
+    `rng` on (which includes CELT's `energy_mask`) and re-inits SILK; since 14e3a558 also
+    `voice_ratio = -1` (and SILK's LBRR_coded / allowBandwidthSwitch / inWBmodeWithoutVariableLP,
+    CELT's prediction, which this state does not carry).  All settings and the rest of `silk_mode`
+    (incl. `toMono`, `useDTX`) survive. -/
 def encReset (s : EncSt) : EncSt :=
   { s with streamChannels := s.channels, mode := MODE_HYBRID, prevMode := 0, prevChannels := 0,
-           prevFramesize := 0, bandwidth := BW_FB, first := true,
+           prevFramesize := 0, bandwidth := BW_FB, first := true, voiceRatio := -1,
            energyMasking := false, celtEnergyMask := false, rangeFinal := 0,
            silkInDtx := 0, noActivityQ1 := 0 }
 
@@ -385,7 +387,7 @@ structure DecSt where
   complexity : Int
   celtComplexity : Int          -- CELTDecoder.complexity
   celtDisableInv : Int          -- CELTDecoder.disable_inv
-  silkPitch : Int               -- DecControl.prevPitchLag (outside the reset region)
+  silkPitch : Int               -- DecControl.prevPitchLag (outside the cleared region; reset sets it to 0)
   -- reset region
   bandwidth : Int
   prevMode : Int
@@ -450,9 +452,10 @@ def decGetVal (s : DecSt) : DecGetK → Int
   | .lastPacketDuration => s.lastPacketDuration
   | .phaseInversionDisabled => s.celtDisableInv
 
-/-- OPUS_RESET_STATE (:1029-1043). -/
+/-- OPUS_RESET_STATE (opus_decoder.c:1029-1048; since 14e3a558 also `DecControl.prevPitchLag = 0`,
+    so OPUS_GET_PITCH is 0 after a reset). -/
 def decReset (s : DecSt) : DecSt :=
-  { s with bandwidth := 0, prevMode := 0, lastPacketDuration := 0, rangeFinal := 0, celtPitch := 0 }
+  { s with bandwidth := 0, prevMode := 0, lastPacketDuration := 0, rangeFinal := 0, celtPitch := 0, silkPitch := 0 }
 
 /-- `opus_decoder_ctl` (opus_decoder.c:973-1142). -/
 def decCtl (s : DecSt) : DecReq → DecSt × Ret
